@@ -22,6 +22,16 @@ class Custom(nnx.Param):
   pass
 
 
+import typing as _tp
+
+
+class NT(_tp.NamedTuple):
+  """a generic JAX pytree node whose fields are not declared in alphabetical order"""
+  x: _tp.Any
+  w: _tp.Any
+  a: _tp.Any
+
+
 NODE_TYPES = {'Box': Box, 'Box2': Box2}
 VAR_TYPES = {'Param': nnx.Param, 'BatchStat': nnx.BatchStat, 'Cache': nnx.Cache, 'Intermediate': nnx.Intermediate, 'Custom': Custom}
 METAS = [{}, {'tag': 't1'}, {'tag': 't2'}, {'sharding': ('a',)}]
@@ -48,6 +58,8 @@ def build(desc):
       return [x for _, x in items]
     if v[1] == 'tuple':
       return tuple(x for _, x in items)
+    if v[1] == 'nt':
+      return NT(**dict(items))
     return {kk: x for kk, x in items}
   for o, obj in zip(desc['objs'], objs):
     if o['kind'] == 'node':
@@ -66,6 +78,8 @@ def type_name(t):
     return 'tuple'
   if t is dict:
     return 'dict'
+  if t is NT or t is G.GenericPytree:
+    return 'nt'
   return t.__name__
 
 
@@ -93,7 +107,7 @@ def enc_graphdef(g):
     else:
       attrs.append([k, ['sub', enc_graphdef(v)]])
   tn = type_name(g.type)
-  if tn in ('list', 'tuple', 'dict'):
+  if tn in ('list', 'tuple', 'dict', 'nt'):
     return ['tree', tn, attrs]
   return ['node', tn, g.index, attrs]
 
@@ -124,6 +138,8 @@ def canon(root):
         return ['ref', ids[id(x)]]
       i = ids[id(x)] = len(ids)
       return ['node', type_name(type(x)), i, [[k, go(v)] for k, v in sorted(vars(x).items()) if k != '_object__state']]
+    if isinstance(x, NT):
+      return ['tree', 'nt', [[k, go(v)] for k, v in sorted(x._asdict().items())]]
     if isinstance(x, (list, tuple)):
       return ['tree', 'list' if isinstance(x, list) else 'tuple', [[i, go(v)] for i, v in enumerate(x)]]
     if isinstance(x, dict):
@@ -149,6 +165,9 @@ def obj_ids(root):
         for k, v in vars(x).items():
           if k != '_object__state':
             go(v)
+    elif isinstance(x, NT):
+      for _, v in sorted(x._asdict().items()):
+        go(v)
     elif isinstance(x, (list, tuple)):
       for v in x:
         go(v)
